@@ -413,6 +413,9 @@ func c15PredViews(r *core.Run) {
 								// DEFECT preconditions (see known_findings.jsonl F-C15-pred-view-window): the predicate kernels walk the
 								// view's raw storage window instead of its elements
 								win := len(b.View.Cell) > 0 && !isDenseWindow(b.View.Cell)
+								if m := tensor.VerifMetaOf(b.T); m.ElSize > 0 && m.RawLen/m.ElSize > len(b.View.Cell) {
+									win = true // the storage window holds more cells than the view has elements (slack behind a stepped range)
+								}
 								kf := func(f *core.Fail) *core.Fail {
 									if win {
 										f.Kind += "[KF:pred-view-window]"
